@@ -258,6 +258,9 @@ class SysGen:
                 held = r.choice([2, 2, 3, 4, 5])
                 held_rt = r.choice(types)
                 continue
+            if r.random() < 0.03:
+                case["ops"].append({"op": "dump"})       # Dump() renders the cache: an observation, no effect
+                continue
             if k < 0.4:
                 rt = r.choice(self.LOOKUP_TYPES)
                 pool = self.lis_names(istio) if rt == "lds" else self.NAMES[rt]
@@ -317,7 +320,7 @@ def gop(op, st):
         return "OResp %s %s (%s %s)" % (gstr(op["version"]), gstr(op["nonce"]), PL[op["rt"]], tj(st["summary"]))
     if k == "recverr":
         return "ORecvErr %s" % gbool(op["auth"])
-    if k in ("block_send", "unblock_send"):
+    if k in ("block_send", "unblock_send", "dump"):
         return "OTick 0"
     if k == "burst_unblock":
         return "OLookups %s %s" % (RT[op["rt"]], glist(op["names"], gstr))
